@@ -278,3 +278,7 @@ def run(ctx):
                        "constant index %d does not agree with the capacity %d of %s (producers fill downwards from "
                        "capacity-1, consumers walk up to capacity)" % (c, cap, arr))
     ctx.floor("C06.R5", n5, 8, "constant indices into in-page arrays")
+
+
+SWEEP = ["reusable/test_memory_resource.cpp",
+         "reusable/test_allocator.cpp"]
